@@ -246,6 +246,25 @@ func simGen(tier string, r *rand.Rand, prop string) []Case {
 			}
 		}
 	}
+	// cancelling small-order components on two commitments, seen by the participant whose evaluation
+	// point is 1 (index 0): [1^0]T - [1^t]T vanishes, so its HONEST share matches the invalid vector
+	for _, proto := range []string{"vss", "qual", "joint"} {
+		if proto == "vss" && prop != "C08" {
+			continue
+		}
+		for _, hint := range []string{"share-first", "vector-first"} {
+			n := 3 + r.IntN(3)
+			t := 1 + r.IntN((n-1)/2)
+			in := simBase(r, proto, n, t, n-1, []int{n - 1})
+			if proto == "vss" {
+				in.Honest = []int{0}
+				in.MustFail = true
+			}
+			in.Hint = hint
+			in.Byz[0].Vec = "g2pm13-pair"
+			cs = append(cs, simFinish("cancelling-pair-"+proto, in))
+		}
+	}
 	if prop == "C08" {
 		for _, vk := range simVecKinds2 {
 			for i, sk := range []string{"ok", "bad"} {
